@@ -307,6 +307,10 @@ class ObjectTemplate(base.HyperValue, utils.Formattable):
       ValueError if value cannot be encoded by this template.
     """
     children = []
+    # NOTE: the `where` clause is bound to the hyper primitives parsed from the
+    # template (not to the ones in `self._value`), they are the ones that
+    # `dna_spec` and `decode` use.
+    parsed_primitives = {str(p): v for p, v in self._hyper_primitives}
     def _encode(
         path: utils.KeyPath, template_value: Any, input_value: Any
     ) -> Any:
@@ -317,7 +321,9 @@ class ObjectTemplate(base.HyperValue, utils.Formattable):
             f'Value is missing from input. Path=\'{path}\'.')
       if (isinstance(template_value, base.HyperValue)
           and (not self._where or self._where(template_value))):
-        children.append(template_value.encode(input_value))
+        children.append(
+            parsed_primitives.get(str(path), template_value).encode(input_value)
+        )
       elif isinstance(template_value, derived.DerivedValue):
         if self._compute_derived:
           referenced_values = [
